@@ -214,40 +214,38 @@ Qed.
 
 (* noting a new live member keeps the cache right *)
 Lemma minids_ok_note m rds rds' d :
-  minids_ok m rds -> d_used d = true ->
-  (forall x, In x rds' <-> x = d \/ (In x rds /\ True)) ->
+  minids_ok m rds -> d_used d = true -> In d rds' ->
+  (forall x, In x rds' -> x = d \/ In x rds) ->
+  (forall x, In x rds -> d_used x = true -> In x rds') ->
   minids_ok (minid_note (d_group d) (d_id d) m) rds'.
 Proof.
-  intros Hm Hu Hin g. unfold minid_note.
+  intros Hm Hu Inew Hfwd Hbwd g. unfold minid_note.
   pose proof (Hm (d_group d)) as Hd. pose proof (Hm g) as Hg.
-  assert (Inew : In d rds') by (apply Hin; auto).
+  (* the other groups are unaffected *)
+  assert (Other : d_group d <> g ->
+            match minid_lookup g m with
+            | Some v =>
+                (exists x, In x rds' /\ d_used x = true /\ d_group x = g /\ d_id x = v) /\
+                (forall x, In x rds' -> d_used x = true -> d_group x = g -> v <= d_id x)
+            | None => forall x, In x rds' -> d_used x = true -> d_group x <> g
+            end).
+  { intro Ng. destruct (minid_lookup g m) as [w|].
+    - destruct Hg as [(x & Ix & Ux & Gx & Ex) Lx]. split.
+      + exists x. repeat split; auto.
+      + intros y Iy Uy Gy. destruct (Hfwd y Iy) as [->|Iy']; [congruence|]. auto.
+    - intros y Iy Uy. destruct (Hfwd y Iy) as [->|Iy']; [auto|]. auto. }
   destruct (minid_lookup (d_group d) m) as [v|] eqn:L.
   - destruct (Z.ltb_spec (d_id d) v) as [Lt|Ge].
-    + rewrite minid_lookup_set. destruct (Z.eqb_spec (d_group d) g) as [<-|Ng].
-      * split; [exists d; auto|]. intros x Ix Ux Gx. apply Hin in Ix as [->|[Ix _]]; [lia|].
-        destruct Hd as [_ Hd]. specialize (Hd x Ix Ux Gx). lia.
-      * destruct (minid_lookup g m) as [w|].
-        -- destruct Hg as [(x & Ix & Ux & Gx & Ex) Lx]. split.
-           ++ exists x. repeat split; auto. apply Hin; auto.
-           ++ intros y Iy Uy Gy. apply Hin in Iy as [->|[Iy _]]; [congruence|]. auto.
-        -- intros y Iy Uy. apply Hin in Iy as [->|[Iy _]]; [auto|]. auto.
-    + destruct (Z.eqb_spec (d_group d) g) as [<-|Ng].
-      * rewrite L. destruct Hd as [(x & Ix & Ux & Gx & Ex) Lx]. split.
-        -- exists x. repeat split; auto. apply Hin; auto.
-        -- intros y Iy Uy Gy. apply Hin in Iy as [->|[Iy _]]; [lia|]. auto.
-      * destruct (minid_lookup g m) as [w|].
-        -- destruct Hg as [(x & Ix & Ux & Gx & Ex) Lx]. split.
-           ++ exists x. repeat split; auto. apply Hin; auto.
-           ++ intros y Iy Uy Gy. apply Hin in Iy as [->|[Iy _]]; [congruence|]. auto.
-        -- intros y Iy Uy. apply Hin in Iy as [->|[Iy _]]; [auto|]. auto.
-  - rewrite minid_lookup_set. destruct (Z.eqb_spec (d_group d) g) as [<-|Ng].
-    + split; [exists d; auto|]. intros x Ix Ux Gx. apply Hin in Ix as [->|[Ix _]]; [lia|].
-      exfalso. exact (Hd x Ix Ux Gx).
-    + destruct (minid_lookup g m) as [w|].
-      * destruct Hg as [(x & Ix & Ux & Gx & Ex) Lx]. split.
-        -- exists x. repeat split; auto. apply Hin; auto.
-        -- intros y Iy Uy Gy. apply Hin in Iy as [->|[Iy _]]; [congruence|]. auto.
-      * intros y Iy Uy. apply Hin in Iy as [->|[Iy _]]; [auto|]. auto.
+    + rewrite minid_lookup_set. destruct (Z.eqb_spec (d_group d) g) as [<-|Ng]; [|now apply Other].
+      split; [exists d; auto|]. intros x Ix Ux Gx. destruct (Hfwd x Ix) as [->|Ix']; [lia|].
+      destruct Hd as [_ Hd]. specialize (Hd x Ix' Ux Gx). lia.
+    + destruct (Z.eqb_spec (d_group d) g) as [<-|Ng]; [|now apply Other].
+      rewrite L. destruct Hd as [(x & Ix & Ux & Gx & Ex) Lx]. split.
+      * exists x. repeat split; auto.
+      * intros y Iy Uy Gy. destruct (Hfwd y Iy) as [->|Iy']; [lia|]. auto.
+  - rewrite minid_lookup_set. destruct (Z.eqb_spec (d_group d) g) as [<-|Ng]; [|now apply Other].
+    split; [exists d; auto|]. intros x Ix Ux Gx. destruct (Hfwd x Ix) as [->|Ix']; [lia|].
+    exfalso. exact (Hd x Ix' Ux Gx).
 Qed.
 
 (* populate_minids computes a right and sorted cache *)
@@ -272,7 +270,9 @@ Proof.
   - replace (done ++ d :: r) with ((done ++ [d]) ++ r) by now rewrite <- app_assoc.
     apply IH. destruct (d_used d) eqn:U.
     + apply (minids_ok_note m done); auto.
-      intro x. rewrite in_app_iff. simpl. intuition.
+      * apply in_app_iff. right. simpl. auto.
+      * intros x Hx. apply in_app_iff in Hx as [Hx|Hx]; [auto|]. simpl in Hx. destruct Hx as [<-|[]]. auto.
+      * intros x Hx _. apply in_app_iff. auto.
     + intro g. specialize (H g). destruct (minid_lookup g m) as [v|].
       * destruct H as [(x & Ix & Ux & Gx & Ex) Lx]. split.
         -- exists x. repeat split; auto. apply in_app_iff; auto.
